@@ -46,7 +46,8 @@ func init() {
 	allForests := func(r *Rng) []NodeCfg {
 		ns := []NodeCfg{{Kind: "stump"}, {Kind: "pollard"},
 			{Kind: "mapfull", TotalRows: -1, DetMaps: r.Bool()}, {Kind: "mapfull", TotalRows: 0, DetMaps: r.Bool()}, mapNode("mapfull", r),
-			{Kind: "mappartial", TotalRows: -1, DetMaps: r.Bool()}, mapNode("mappartial", r)}
+			{Kind: "mappartial", TotalRows: -1, DetMaps: r.Bool()}, mapNode("mappartial", r),
+			{Kind: "mappartial", TotalRows: -1, DetMaps: r.Bool(), Big: bigOffset(r)}}
 		return ns
 	}
 	reg(&Profile{Name: "c01", PForged: 10, Property: "C01", Oracles: []string{"roots"},
@@ -77,7 +78,7 @@ func init() {
 	reg(&Profile{Name: "c06", PForged: 10, Property: "C06", Oracles: []string{"roots", "lookup", "prove", "provable-set", "partial"},
 		Nodes: func(r *Rng) []NodeCfg {
 			return []NodeCfg{{Kind: "pollard"}, {Kind: "mapfull", TotalRows: -1, DetMaps: r.Bool()}, {Kind: "mapfull", TotalRows: 0},
-				mapNode("mapfull", r), {Kind: "mappartial", TotalRows: -1}, mapNode("mappartial", r)}
+				mapNode("mapfull", r), {Kind: "mappartial", TotalRows: -1}, mapNode("mappartial", r), {Kind: "mappartial", TotalRows: -1, Big: bigOffset(r)}}
 		},
 		MaxBlocks: 30, MaxAdds: 40, PReorg: 30, PSnapCrash: 3, NetFaults: true})
 	lightNodes := func(r *Rng) []NodeCfg {
@@ -94,7 +95,8 @@ func init() {
 		MaxBlocks: 40, MaxAdds: 64, PReorg: 10, NetFaults: true})
 	reg(&Profile{Name: "c09", PForged: 25, Property: "C09", Oracles: []string{"roots", "partial"},
 		Nodes: func(r *Rng) []NodeCfg {
-			ns := []NodeCfg{{Kind: "mappartial", TotalRows: -1, DetMaps: r.Bool()}, {Kind: "mappartial", TotalRows: 0, DetMaps: r.Bool()}, mapNode("mappartial", r)}
+			ns := []NodeCfg{{Kind: "mappartial", TotalRows: -1, DetMaps: r.Bool()}, {Kind: "mappartial", TotalRows: 0, DetMaps: r.Bool()}, mapNode("mappartial", r),
+				{Kind: "mappartial", TotalRows: -1, DetMaps: r.Bool(), Big: bigOffset(r)}}
 			if r.Pct(60) {
 				ns = append(ns, NodeCfg{Kind: "mappartial", TotalRows: -1, FromRoots: 1 + r.Intn(5)})
 			}
@@ -104,25 +106,27 @@ func init() {
 	reg(&Profile{Name: "c10", PForged: 20, Property: "C10", Oracles: []string{"roots", "lookup"},
 		Nodes: func(r *Rng) []NodeCfg {
 			return []NodeCfg{{Kind: "pollard"}, {Kind: "mapfull", TotalRows: -1, DetMaps: r.Bool()}, {Kind: "mapfull", TotalRows: 0},
-				mapNode("mapfull", r), {Kind: "mappartial", TotalRows: -1}, mapNode("mappartial", r)}
+				mapNode("mapfull", r), {Kind: "mappartial", TotalRows: -1}, mapNode("mappartial", r), {Kind: "mappartial", TotalRows: -1, Big: bigOffset(r)}}
 		},
 		MaxBlocks: 25, MaxAdds: 32, PReorg: 15, PSnapCrash: 6, PCacheOps: 10, NetFaults: true})
 	reg(&Profile{Name: "c13", PForged: 10, Property: "C13", Oracles: []string{"roots", "lookup", "prove", "partial"},
 		Nodes: func(r *Rng) []NodeCfg {
 			return []NodeCfg{{Kind: "pollard"}, {Kind: "mapfull", TotalRows: -1, DetMaps: true}, {Kind: "mapfull", TotalRows: 0, DetMaps: r.Bool()},
-				mapNode("mapfull", r), {Kind: "mappartial", TotalRows: -1, DetMaps: true}, mapNode("mappartial", r)}
+				mapNode("mapfull", r), {Kind: "mappartial", TotalRows: -1, DetMaps: true}, mapNode("mappartial", r), {Kind: "mappartial", TotalRows: -1, DetMaps: true, Big: bigOffset(r)}}
 		},
 		MaxBlocks: 25, MaxAdds: 32, PReorg: 12, PSnapCrash: 35, PCacheOps: 8, NetFaults: true})
 	reg(&Profile{Name: "c14", PForged: 15, Property: "C14", Oracles: []string{"roots", "c14proto"},
 		Nodes: func(r *Rng) []NodeCfg {
-			return []NodeCfg{{Kind: "mappartial", TotalRows: -1, DetMaps: r.Bool()}, {Kind: "mappartial", TotalRows: 0}, mapNode("mappartial", r), {Kind: "stump"}}
+			return []NodeCfg{{Kind: "mappartial", TotalRows: -1, DetMaps: r.Bool()}, {Kind: "mappartial", TotalRows: 0}, mapNode("mappartial", r), {Kind: "stump"},
+				{Kind: "mappartial", TotalRows: -1, Big: bigOffset(r)}}
 		},
 		MaxBlocks: 25, MaxAdds: 32, PReorg: 8, PCacheOps: 25, PQuery: 60, NetFaults: true,
 		QueryModes: []string{"addproof", "subset", "missing", "pmissing"}})
 	reg(&Profile{Name: "c17", PForged: 15, Property: "C17", Oracles: []string{"roots", "prove", "lookup", "light", "updatedata", "partial", "aliasing", "c14proto"},
 		Nodes: func(r *Rng) []NodeCfg {
 			return []NodeCfg{{Kind: "stump"}, {Kind: "light"}, {Kind: "pollard"}, {Kind: "mapfull", TotalRows: -1}, mapNode("mapfull", r),
-				{Kind: "mappartial", TotalRows: -1}, mapNode("mappartial", r), {Kind: "stump", Relay: "reenc", NoUndo: true}}
+				{Kind: "mappartial", TotalRows: -1}, mapNode("mappartial", r), {Kind: "stump", Relay: "reenc", NoUndo: true},
+				{Kind: "mappartial", TotalRows: -1, Big: bigOffset(r)}, {Kind: "light", Big: bigOffset(r)}}
 		},
 		MaxBlocks: 20, MaxAdds: 24, PReorg: 15, PSnapCrash: 4, PCacheOps: 15, PQuery: 30, NetFaults: true,
 		QueryModes: []string{"addproof", "subset", "pmissing"}})
